@@ -6,9 +6,12 @@ import (
 	"fmt"
 	"math/rand/v2"
 	"strings"
+	"sync"
 	"testing"
 	"testing/synctest"
 	"time"
+
+	"github.com/basecamp/kamal-proxy/internal/server"
 )
 
 var c06Classes = []string{
@@ -18,6 +21,7 @@ var c06Classes = []string{
 	"acme-wildcard", "conflict-new", "conflict-move",
 	"unknown-pause", "unknown-stop", "unknown-resume", "unknown-remove", "unknown-rollout-deploy", "unknown-rollout-set", "unknown-rollout-stop",
 	"split-without-rollout",
+	"conflict-race",
 }
 
 type c06Scenario struct {
@@ -146,6 +150,9 @@ func c06Run(t *testing.T, run *Run, sc c06Scenario, rng *rand.Rand) {
 			f.Svc = "s9"
 		}
 		rejected = f.Targets
+	case "conflict-race":
+		c06Race(w, run, sc, g, existing, list)
+		return
 	case "split-without-rollout":
 		mustFail = false
 		for _, name := range existing {
@@ -220,4 +227,84 @@ func c06Run(t *testing.T, run *Run, sc c06Scenario, rng *rand.Rand) {
 	run.Count("observables_compared", len(before))
 	run.Class(fmt.Sprintf("%s|services=%d|err=%s", sc.Class, len(existing), strings.SplitN(rec.Err, " (", 2)[0]))
 	run.Sample(map[string]any{"class": sc.Class, "failing_command": f, "error": rec.Err, "history_len": len(sc.History), "services": existing, "observables": len(before)})
+}
+
+// c06Race: two deploys by different (new) services claiming the same free pair are held at the hook
+// just before the install step and released together. Exactly one is rejected (late: its targets
+// were created, probed and found healthy); the rejected one must leave nothing running and the
+// configuration must be "what it was before plus the winner".
+func c06Race(w *World, run *Run, sc c06Scenario, g *CmdGen, existing []string, list map[string]server.ServiceDescription) {
+	fail := func(sig, format string, a ...any) {
+		run.Violate(sig, fmt.Sprintf(format, a...), sc, func() []string { return w.Trace(200) })
+	}
+	a, b := g.Deploy("race-a"), g.Deploy("race-b")
+	for _, c := range []*Cmd{&a, &b} {
+		c.Hosts, c.Prefixes, c.TLS, c.Pages = []string{"race.example"}, nil, "", ""
+	}
+	var mu sync.Mutex
+	arrived := 0
+	gate := make(chan struct{})
+	w.mu.Lock()
+	w.OnHook = func(h HookRec) {
+		if h.Point != "deploy.lb.updated" || !strings.HasPrefix(h.Name, "race-") {
+			return
+		}
+		mu.Lock()
+		arrived++
+		if arrived == 2 {
+			close(gate)
+		}
+		mu.Unlock()
+		select {
+		case <-gate:
+		case <-w.done:
+		}
+	}
+	w.mu.Unlock()
+	var ra, rb *CmdRec
+	var wg sync.WaitGroup
+	wg.Add(2)
+	go func() { defer wg.Done(); ra = a.Exec(w, w.Router) }()
+	go func() { defer wg.Done(); rb = b.Exec(w, w.Router) }()
+	wg.Wait()
+	w.mu.Lock()
+	w.OnHook = nil
+	w.mu.Unlock()
+	if ra.Panic != "" || rb.Panic != "" {
+		fail("panic:conflict-race", "racing deploys panicked: %s %s", ra.Panic, rb.Panic)
+		return
+	}
+	if (ra.Err == "") == (rb.Err == "") {
+		fail("race-not-exactly-one-winner", "two deploys raced for host race.example: results %q and %q", ra.Err, rb.Err)
+		return
+	}
+	loser, lrec := a, ra
+	if ra.Err == "" {
+		loser, lrec = b, rb
+	}
+	time.Sleep(20 * 2 * time.Second)
+	for _, tn := range loser.Targets {
+		if ft := w.Target(tn); ft != nil {
+			for _, pr := range ft.ProbeLog() {
+				if pr.Start > lrec.Ret+Eps {
+					fail("probe-after-failure:conflict-race", "target %s of the deploy that lost the race (returned %v with %q) was probed again at %v", tn, lrec.Ret, lrec.Err, pr.Start)
+					return
+				}
+			}
+			if len(ft.ReqLog()) > 0 {
+				fail("traffic-to-rejected-target:conflict-race", "target %s of the rejected deploy received client requests", tn)
+				return
+			}
+		}
+	}
+	now := w.Router.ListActiveServices()
+	if len(now) != len(list)+1 {
+		fail("state-changed:conflict-race:list", "after the race the proxy lists %d services, expected %d", len(now), len(list)+1)
+		return
+	}
+	if _, ok := now[loser.Svc]; ok {
+		fail("state-changed:conflict-race:list", "the rejected service %s is listed", loser.Svc)
+		return
+	}
+	run.Class(fmt.Sprintf("conflict-race|services=%d", len(existing)))
 }
